@@ -306,8 +306,22 @@ pub fn asked_true(callee: &Address, func: u64, args: &ArgBuf) -> bool {
     n >= 1 && ok
 }
 /// exactly one call of `func` on `callee`, and it carries exactly `args`
+/// exactly one call of `func` on `callee`, with exactly these arguments, and it was DELIVERED: a hook invoked through a
+/// `try_` client whose failure is swallowed leaves the compliance contract without the notification (its effects
+/// roll back) although the token operation succeeds
 pub fn once_exact(callee: &Address, func: u64, args: &ArgBuf) -> bool {
-    model::call_count_fn(callee, func) == 1 && model::call_count(callee, func, args) == 1
+    let mut delivered = 0u32;
+    let mut i = 0;
+    while i < model::NC {
+        if (i as u32) < model::n_calls() {
+            let c = model::call_at(i);
+            if c.callee == callee.id && c.func == func && c.args.eq(args) && !c.failed {
+                delivered += 1;
+            }
+        }
+        i += 1;
+    }
+    model::call_count_fn(callee, func) == 1 && model::call_count(callee, func, args) == 1 && delivered == 1
 }
 pub fn args1(a: &Address) -> ArgBuf {
     let mut b = ArgBuf::new();
